@@ -10,7 +10,7 @@ import time
 from typing import TYPE_CHECKING, cast
 
 from pynetdicom import evt
-from pynetdicom.fsm import StateMachine
+from pynetdicom.fsm import InvalidEventError, StateMachine
 from pynetdicom.pdu import (
     A_ASSOCIATE_RQ,
     A_ASSOCIATE_AC,
@@ -444,7 +444,24 @@ class DULServiceProvider(Thread):
                 sleep = True
                 continue
 
-            self.state_machine.do_action(event)
+            try:
+                self.state_machine.do_action(event)
+            except InvalidEventError:
+                # In Sta13 the association no longer exists and we're only
+                #   waiting for the transport connection to close, so a request
+                #   primitive from the local user that lost the race with the
+                #   abort/release can't be acted on and is discarded
+                if (
+                    self.state_machine.current_state != "Sta13"
+                    or event not in _LOCAL_PRIMITIVE_EVENTS
+                ):
+                    raise
+
+                try:
+                    self.to_provider_queue.get(False)
+                except queue.Empty:
+                    pass
+
             sleep = False
 
     def _send(self, pdu: _PDUType) -> None:
@@ -506,6 +523,9 @@ class DULServiceProvider(Thread):
 
         return False
 
+
+# Events caused by the local user issuing a request or response primitive
+_LOCAL_PRIMITIVE_EVENTS = ("Evt7", "Evt8", "Evt9", "Evt11", "Evt14", "Evt15")
 
 _PDU_TYPES: dict[bytes, tuple[type[_PDUType], str]] = {
     b"\x01": (A_ASSOCIATE_RQ, "Evt6"),
